@@ -204,6 +204,19 @@ def run(ctx):
                "predecessor must add matrix[code1[i-1], code2[j-1]]", f.lineno)
     # ---- align_optimal: boundary flags, start states, max_number -----------------
     ao = s.func("align_optimal")
+    # the penalties that are refused are the POSITIVE ones (0 - gaps for free - is a legal penalty), for both forms
+    pen_tests = [st.test for st in ast.walk(ao) if isinstance(st, ast.If) and any(isinstance(y, ast.Raise) for y in st.body)
+                 and any(isinstance(x, ast.Name) and x.id == "gap_penalty" for x in ast.walk(st.test))
+                 and any(isinstance(x, ast.Compare) and not isinstance(x.ops[0], (ast.Eq, ast.NotEq, ast.Is, ast.IsNot)) for x in ast.walk(st.test))]
+    ctx.ob("R1.gap-penalty-range", PW, "align_optimal", "gap_penalty > 0 / gap_penalty[0] > 0 or gap_penalty[1] > 0 -> ValueError",
+           len(pen_tests) == 2 and any(same_expr(t_, "gap_penalty > 0") for t_ in pen_tests)
+           and any(same_expr(t_, "gap_penalty[0] > 0 or gap_penalty[1] > 0") for t_ in pen_tests),
+           "a gap penalty of 0 is accepted by the documented range check (only positive penalties are refused)", ao.lineno)
+    # the code arrays go into the table filling as they are (each in its own dtype: the filling is specialised per pair of code types)
+    ctx.ob("R1.codes-unconverted", PW, "align_optimal", "code1 = seq1.code; code2 = seq2.code",
+           has_code(ao, "code1 = seq1.code") and has_code(ao, "code2 = seq2.code"),
+           "converting one code array to the dtype of the other truncates the codes of a large alphabet (a uint16 code of 300 becomes 44 as "
+           "uint8)", ao.lineno)
     t = ast.unparse(ao)
     bounds = {}
     for st in stmts(ao):
